@@ -69,8 +69,23 @@ impl Gen {
         e
     }
 
-    /// key configuration + polynomials inside the scheme's domain (the C01 quantifier)
+    /// key configuration + polynomials inside the scheme's domain (the C01 quantifier); for the
+    /// linear-code schemes a third of the runs randomise the tuning knobs (security parameter,
+    /// rate, well-formedness check) through the public parameter constructors
     pub fn workload(&mut self, scheme: &str, max_polys: usize) -> (KeyCfg, Vec<PolySpec>) {
+        let (mut cfg, polys) = self.workload_inner(scheme, max_polys);
+        if family_of(scheme).is_lincode() && self.r.gen_bool(0.35) {
+            let fam = family_of(scheme);
+            cfg.lincode = Some(LcKnobs {
+                check_well_formedness: self.r.gen_bool(0.5),
+                sec_param: [128, 100, 64, 32][self.r.gen_range(0..4)],
+                rho_inv: if fam == Family::Brakedown { 0 } else { [2, 4, 8][self.r.gen_range(0..3)] },
+            });
+        }
+        (cfg, polys)
+    }
+
+    fn workload_inner(&mut self, scheme: &str, max_polys: usize) -> (KeyCfg, Vec<PolySpec>) {
         let fam = family_of(scheme);
         let n_polys = self.small(1, max_polys);
         match fam {
@@ -95,7 +110,7 @@ impl Gen {
                         Some(b)
                     }
                 };
-                let cfg = KeyCfg { max_degree, num_vars: None, supported_degree: supported, supported_hiding, bounds: bounds.clone() };
+                let cfg = KeyCfg { max_degree, num_vars: None, supported_degree: supported, supported_hiding, bounds: bounds.clone(), lincode: None };
                 let mut polys = vec![];
                 for i in 0..n_polys {
                     let (shape, degree) = self.uni_shape(supported);
@@ -110,10 +125,42 @@ impl Gen {
                 }
                 (cfg, polys)
             }
+            Family::Kzg10 => {
+                let max_degree = if self.r.gen_bool(0.85) { self.small(1, 24) } else { self.r.gen_range(25..=64) };
+                let supported = if self.r.gen_bool(0.3) { max_degree } else { self.r.gen_range(1..=max_degree) };
+                let supported_hiding = self.r.gen_range(1..=max_degree.min(5));
+                let cfg = KeyCfg { max_degree, num_vars: None, supported_degree: supported, supported_hiding, bounds: None, lincode: None };
+                let mut polys = vec![];
+                for i in 0..n_polys {
+                    let (shape, degree) = self.uni_shape(supported);
+                    let hiding = if self.r.gen_bool(0.5) { Some(self.r.gen_range(1..=supported_hiding)) } else { None };
+                    polys.push(PolySpec { label: format!("p{i}"), shape, degree, degree_bound: None, hiding, coeff_id: i as u64 });
+                }
+                (cfg, polys)
+            }
+            Family::Mlpc => {
+                // universal parameters for `max_degree` variables, keys trimmed to `nv` <= that
+                let nv_setup = self.small(1, 7);
+                let nv = if self.r.gen_bool(0.5) { nv_setup } else { self.r.gen_range(1..=nv_setup) };
+                let cfg = KeyCfg { max_degree: nv_setup, num_vars: Some(nv), supported_degree: nv, supported_hiding: 1, bounds: None, lincode: None };
+                let n = 1usize << nv;
+                let mut polys = vec![];
+                for i in 0..n_polys {
+                    let shape = match self.r.gen_range(0..10) {
+                        0 => Shape::Zero,
+                        1 => Shape::Const,
+                        2 => Shape::LowZeros(self.r.gen_range(0..=n / 2)),
+                        3 => Shape::Sparse(self.r.gen_range(1..=3)),
+                        _ => Shape::Dense,
+                    };
+                    polys.push(PolySpec { label: format!("p{i}"), shape, degree: nv, degree_bound: None, hiding: None, coeff_id: i as u64 });
+                }
+                (cfg, polys)
+            }
             Family::Ipa => {
                 let max_degree = if self.r.gen_bool(0.85) { self.small(1, 20) } else { self.r.gen_range(21..=63) };
                 let supported = if self.r.gen_bool(0.3) { max_degree } else { self.r.gen_range(1..=max_degree) };
-                let cfg = KeyCfg { max_degree, num_vars: None, supported_degree: supported, supported_hiding: 1, bounds: None };
+                let cfg = KeyCfg { max_degree, num_vars: None, supported_degree: supported, supported_hiding: 1, bounds: None, lincode: None };
                 let mut polys = vec![];
                 for i in 0..n_polys {
                     let (shape, degree) = self.uni_shape(supported);
@@ -127,7 +174,7 @@ impl Gen {
                 let nv = self.small(1, 4);
                 let max_degree = self.small(1, if nv >= 4 { 3 } else { 4 });
                 let supported = self.r.gen_range(1..=max_degree);
-                let cfg = KeyCfg { max_degree, num_vars: Some(nv), supported_degree: supported, supported_hiding: supported, bounds: None };
+                let cfg = KeyCfg { max_degree, num_vars: Some(nv), supported_degree: supported, supported_hiding: supported, bounds: None, lincode: None };
                 let mut polys = vec![];
                 for i in 0..n_polys {
                     let (shape, degree) = match self.r.gen_range(0..10) {
@@ -148,7 +195,7 @@ impl Gen {
                     Family::MLigero => self.small(1, 9),
                     _ => self.small(1, 8),
                 };
-                let cfg = KeyCfg { max_degree: nv.max(1), num_vars: Some(nv), supported_degree: nv.max(1), supported_hiding: 1, bounds: None };
+                let cfg = KeyCfg { max_degree: nv.max(1), num_vars: Some(nv), supported_degree: nv.max(1), supported_hiding: 1, bounds: None, lincode: None };
                 let n = 1usize << nv;
                 let mut polys = vec![];
                 for i in 0..n_polys {
@@ -165,7 +212,7 @@ impl Gen {
             }
             Family::ULigero => {
                 let max_degree = if self.r.gen_bool(0.85) { self.small(1, 40) } else { self.r.gen_range(41..=200) };
-                let cfg = KeyCfg { max_degree, num_vars: None, supported_degree: max_degree, supported_hiding: 1, bounds: None };
+                let cfg = KeyCfg { max_degree, num_vars: None, supported_degree: max_degree, supported_hiding: 1, bounds: None, lincode: None };
                 let mut polys = vec![];
                 for i in 0..n_polys {
                     let (shape, degree) = self.uni_shape(max_degree);
